@@ -161,7 +161,7 @@ def faultResponse (B : Backend) (cfg : Config) (f : Fault) : PyM String :=
     Returns the dictionary and the Fault as it is afterwards (the forced id is stored on the object: a later
     `dump()` without arguments uses it too). -/
 def faultDumpWith (cfg : Config) (f : Fault) (rpcid : PyVal) (version : VerArg) : PyVal × Fault :=
-  let f' : Fault := if rpcid.truthy then { f with rpcid := rpcid } else f
+  let f' : Fault := match rpcid with | .none => f | r => { f with rpcid := r }
   (error (resolveVersion cfg version) f'.rpcid f'.code f'.message f'.data, f')
 
 /-- `Fault.response(rpcid=…, version=…)`: the same dictionary rendered by the JSON backend. -/
